@@ -685,7 +685,6 @@ class IterativeIASolverBaseClass(IASolverBaseClass):
         mod_users = []
         num_significant_sing_values = []
         assert (self._F is not None)
-        assert (self._full_F is not None)
         for k in range(self.K):
             # We only need to perform further actions if more then one
             # streams is transmitted. In that case we need to test if the
@@ -719,7 +718,10 @@ class IterativeIASolverBaseClass(IASolverBaseClass):
 
                     self._F[k] = new_F
 
-                    if self._full_F[k] is not None:
+                    # `_full_F` is only computed when it is required: it is
+                    # still None if no iteration was performed
+                    if (self._full_F is not None
+                            and self._full_F[k] is not None):
                         # Original norm of the _full_F[k] precoder
                         original_norm = np.linalg.norm(self._full_F[k], 'fro')
                         new_full_F = get_principal_component_matrix(
